@@ -11,7 +11,7 @@ import glob
 import json
 import os
 
-from vlib import (Infra, go_test, l1, log, monitor, read_ndjson, report, tlc, trace_of)
+from vlib import (Infra, apalache, go_test, l1, log, monitor, read_ndjson, report, tlc, trace_of)
 
 INVS = {
     "C01": {"SuccessComplete", "SuccessBytes", "EdgesResolvable", "PresentBytes", "RootTagged", "ReturnedRoot", "NothingElse"},
@@ -47,8 +47,27 @@ PLANS = {
 }
 
 
+def limiter(ctx):
+    """C04, the limiter by itself (Limiter.tla): TLC over every reachable state for C = 2, four tasks, and an inductive
+    invariant discharged by Apalache (Init => IndInv; IndInv /\\ Next => IndInv' from every state satisfying IndInv)."""
+    l1(ctx, "Limiter", "CONSTANTS C = 2\n Task = {1, 2, 3, 4}\nSPECIFICATION Spec\nINVARIANT IndInv\nCHECK_DEADLOCK FALSE\n",
+       name="L1-Limiter-C2-T4")
+    a = apalache(ctx, "Limiter", ["--cinit=CInit", "--init=Init", "--inv=IndInv", "--length=0"], "Limiter-Init=>IndInv")
+    b = apalache(ctx, "Limiter", ["--cinit=CInit", "--init=IndInv", "--inv=IndInv", "--length=1"], "Limiter-IndInv-inductive")
+    if "error" in (a, b):
+        raise Infra("Apalache found a counterexample to the inductive invariant of Limiter.tla")
+    if not ctx.quick:
+        # vacuity guard: with the seeded defect (ended cleared before a failing Acquire) the invariant must break
+        c = apalache(ctx, "Limiter", ["--cinit=CInit", "--init=IndInv", "--next=BadNext", "--inv=IndInv", "--length=1"],
+                     "Limiter-BadNext-must-break")
+        if c == "ok":
+            raise Infra("Limiter.tla: the invariant does not notice a permit released without being held")
+
+
 def run_l1(ctx):
     p = ctx.pid
+    if p == "C04":
+        limiter(ctx)
     if ctx.quick:
         if p == "C02":
             l1(ctx, "CopyGraph", l1cfg(3, 2, 1, 1), name="L1-CopyGraph-N3-C2-f1-cancel")
